@@ -42,6 +42,7 @@ type Config struct {
 	MaxPaths    int
 	MaxDepth    int
 	ConcMax     int // max distinct values in a concretisation
+	ConcSample  int // if > 0: follow only this many values of a concretised slice bound / length (a stated sampling: the obligations at the site itself are decided for every value before the split)
 	TimeoutMs   int
 	Abstract    map[string]string // function full name -> UF symbol
 	Summarize   map[string]bool   // functions replaced by pure-callee summaries
@@ -409,7 +410,92 @@ func (e *Exec) concretize(t *sym.Term, why string) uint64 {
 		excl = append(excl, e.tb.Not(e.tb.Eq(t, e.tb.ConstBig(t.W, v))))
 	}
 	max := e.cfg.ConcMax
-	for {
+	if e.cfg.ConcSample > 0 {
+		// sampled concretisation: follow the smallest and the largest feasible value (found by bisection) and up to
+		// ConcSample-2 arbitrary ones; boundary values are where length / offset arithmetic goes wrong
+		add := func(v *big.Int, m *sym.Model) {
+			for _, x := range vals {
+				if x.Cmp(v) == 0 {
+					return
+				}
+			}
+			vals = append(vals, v)
+			models = append(models, m)
+		}
+		seed := func() (*big.Int, *sym.Model, bool) {
+			if len(vals) > 0 {
+				return vals[0], models[0], true
+			}
+			r, m := e.check()
+			if r != sym.Sat || m == nil {
+				return nil, nil, false
+			}
+			v, ok := e.tb.Eval(t, m, map[int]*big.Int{})
+			if !ok {
+				return nil, nil, false
+			}
+			add(v, m)
+			return v, m, true
+		}
+		if v0, m0, ok := seed(); ok {
+			one := big.NewInt(1)
+			top := new(big.Int).Sub(new(big.Int).Lsh(one, uint(t.W)), one)
+			// largest
+			lo, lom, hi := new(big.Int).Set(v0), m0, new(big.Int).Set(top)
+			for lo.Cmp(hi) < 0 {
+				mid := new(big.Int).Add(lo, hi)
+				mid.Add(mid, one).Rsh(mid, 1)
+				r, m := e.check(e.tb.ULe(e.tb.ConstBig(t.W, mid), t))
+				if r == sym.Sat && m != nil {
+					if v, ok := e.tb.Eval(t, m, map[int]*big.Int{}); ok && v.Cmp(mid) >= 0 {
+						lo, lom = v, m
+						continue
+					}
+				}
+				if r == sym.Unknown {
+					break
+				}
+				hi = mid.Sub(mid, one)
+			}
+			add(lo, lom)
+			// smallest
+			hi2, him, lo2 := new(big.Int).Set(v0), m0, big.NewInt(0)
+			for lo2.Cmp(hi2) < 0 {
+				mid := new(big.Int).Add(lo2, hi2)
+				mid.Rsh(mid, 1)
+				r, m := e.check(e.tb.ULe(t, e.tb.ConstBig(t.W, mid)))
+				if r == sym.Sat && m != nil {
+					if v, ok := e.tb.Eval(t, m, map[int]*big.Int{}); ok && v.Cmp(mid) <= 0 {
+						hi2, him = v, m
+						continue
+					}
+				}
+				if r == sym.Unknown {
+					break
+				}
+				lo2 = mid.Add(mid, one)
+			}
+			add(hi2, him)
+			for len(vals) < e.cfg.ConcSample {
+				var ex []*sym.Term
+				for _, v := range vals {
+					ex = append(ex, e.tb.Not(e.tb.Eq(t, e.tb.ConstBig(t.W, v))))
+				}
+				r, m := e.check(ex...)
+				if r != sym.Sat || m == nil {
+					break
+				}
+				v, ok := e.tb.Eval(t, m, map[int]*big.Int{})
+				if !ok {
+					break
+				}
+				add(v, m)
+			}
+			e.rep.Stubs[fmt.Sprintf("sampled concretisation (min, max and up to %d other values followed; obligations at the site itself decided for all values first): %s", e.cfg.ConcSample-2, why)]++
+			max = -1
+		}
+	}
+	for max >= 0 {
 		r, m := e.check(excl...)
 		if r == sym.Unsat {
 			break
